@@ -36,7 +36,7 @@ fn run_job(run: &mut Run, job: &Job, deep_depth: usize, budget_s: f64) -> Explor
         mode: Mode::Hist,
         deep_depth,
     };
-    engine::explore(run, "hist", &x, budget_s * 0.6, budget_s * 0.4)
+    engine::explore(run, "hist", &x, budget_s * 0.6, budget_s)
 }
 
 /// Fixed scenario: repeated identical 4-word plain query on one index instance.
@@ -92,7 +92,8 @@ fn main() {
     let mut outs = Vec::new();
     let mut carry = 0.0;
     for job in &jobs {
-        let budget = total * job.share + carry;
+        // quick: fixed bounds, the budget is only a cap -> every job may use what is left of the part's budget
+        let budget = if run.tier == Tier::Quick { run.remaining_s() * 0.95 } else { total * job.share + carry };
         let t = run.elapsed();
         let out = run_job(&mut run, job, deep_depth, budget);
         let used = run.elapsed() - t;
